@@ -238,12 +238,18 @@ def units(tier):
     pool = POOL6 if tier == 'quick' else POOL8
     us = []
     classes = textual_classes()
+    deep = {}
+    for ci, (v, n, cls) in enumerate(classes):
+        deep.setdefault((letters_for(cls), cls.__name__ in ('TN', 'WD')), ci)
+    deep = set(deep.values())
     for ci, (v, n, cls) in enumerate(classes):
         for ei, (ecname, ec, letters) in enumerate(ec_sets_for(cls)):
             sym = alphabet(ec)
-            # shard A by first symbol
+            # shard A by first symbol; thorough: length 6 for one class per escaping family (the classes of a family share
+            # one escaping routine), length 5 for the others
+            n_here = nA if (tier == 'quick' or ci in deep) else 5
             for first in range(len(sym)):
-                us.append(('A', ci, ei, first, nA))
+                us.append(('A', ci, ei, first, n_here))
     # B: one class per escaping family (base / 2.7) is enough for the role-assignment dimension, plus TN, WD
     fam_reps = {}
     for ci, (v, n, cls) in enumerate(classes):
@@ -495,7 +501,7 @@ def end_to_end(res, v, k):
 
 def run(tier, seed, extra):
     us = common.rotate(units(tier), seed)
-    extra['bounds'] = {'A_max_len': 5 if tier == 'quick' else 6, 'B_max_len': 3,
+    extra['bounds'] = {'A_max_len': 5 if tier == 'quick' else '6 for one class per escaping family, 5 for the others', 'B_max_len': 3,
                        'B_pool': POOL6 if tier == 'quick' else POOL8, 'C_max_len': 3,
                        'classes': [family_name(*c) for c in textual_classes()]}
     return common.run_units(run_unit, us, tier, fresh_process_per_unit=True)
